@@ -152,6 +152,13 @@ func genW4C(r *simrt.Rng) *w4cOps {
 	}
 	if o.CancelMs < 0 && r.Chance(0.35) {
 		o.CancelAtOp = 1 + r.Intn(len(o.Ops))
+		// more often than not at a save of a configuration file: that is when the watcher has something in its hands
+		for try := 0; try < 4; try++ {
+			if op := o.Ops[o.CancelAtOp-1]; isToml(op.Name) && (op.Kind == "write" || op.Kind == "append") {
+				break
+			}
+			o.CancelAtOp = 1 + r.Intn(len(o.Ops))
+		}
 	}
 	if !o.NoWatcher && r.Chance(0.25) {
 		o.EarlyWrites = true
@@ -327,6 +334,17 @@ func runW4C19(t *testing.T, job *Job, seed uint64, rp *Replay) RunOut {
 		cancelledByUser := false
 		simrt.Go("user", func() {
 			fsys.MarkUserTask()
+			cancelNow := func() {
+				mu.Lock()
+				already := cancelledByUser
+				cancelAt = simrt.Now()
+				shutDown = true
+				cancelledByUser = true
+				mu.Unlock()
+				if !already {
+					cancel()
+				}
+			}
 			for i, op := range ops.Ops {
 				if op.GapUs > 0 {
 					simrt.Sleep(time.Duration(op.GapUs) * time.Microsecond)
@@ -359,6 +377,9 @@ func runW4C19(t *testing.T, job *Job, seed uint64, rp *Replay) RunOut {
 						if hi > lo {
 							markWrite()
 							f.Write(data[lo:hi])
+							if ops.CancelAtOp == i+1 && c == 0 {
+								cancelNow() // in the middle of the save, right behind its first write()
+							}
 						}
 						if op.ChunkGapUs > 0 {
 							simrt.Sleep(time.Duration(op.ChunkGapUs) * time.Microsecond)
@@ -409,12 +430,7 @@ func runW4C19(t *testing.T, job *Job, seed uint64, rp *Replay) RunOut {
 					simfs.WriteFile(fourDirs[op.Dir]+"/nested/deep.toml", data, 0o644)
 				}
 				if ops.CancelAtOp == i+1 {
-					mu.Lock()
-					cancelAt = simrt.Now()
-					shutDown = true
-					cancelledByUser = true
-					mu.Unlock()
-					cancel()
+					cancelNow()
 				}
 			}
 			mu.Lock()
